@@ -152,7 +152,7 @@ func byteSpecArg(s *slip.Scope, arg slip.Object, depth int) (size, pos int) {
 		slip.TypePanic(s, depth, "bytespec", arg, "cons")
 	}
 	var num slip.Fixnum
-	if num, ok = spec[0].(slip.Fixnum); ok && 0 <= num {
+	if num, ok = spec[0].(slip.Fixnum); ok && 0 <= num && num <= slip.ArrayMaxDimension {
 		size = int(num)
 	} else {
 		slip.TypePanic(s, depth, "size", spec[0], "non-negative fixnum")
@@ -161,7 +161,7 @@ func byteSpecArg(s *slip.Scope, arg slip.Object, depth int) (size, pos int) {
 	if tail, ok = spec[1].(slip.Tail); !ok {
 		slip.TypePanic(s, depth, "bytespec", arg, "cons")
 	}
-	if num, ok = tail.Value.(slip.Fixnum); ok && 0 <= num {
+	if num, ok = tail.Value.(slip.Fixnum); ok && 0 <= num && num <= slip.ArrayMaxDimension {
 		pos = int(num)
 	} else {
 		slip.TypePanic(s, depth, "position", tail.Value, "non-negative fixnum")
